@@ -57,6 +57,15 @@ pub fn run(case: &Value, em: &mut Emitter) {
                     let mut a = sm.clone();
                     a.adjust_mappings(sm);
                     observe(&a, &qs, "adjust", &how, em);
+                    // the same object queried, then replaced in place, then queried again
+                    let mut h = sm.clone();
+                    let _ = lookups_out(&h, &qs);
+                    let _ = h.tokens().count();
+                    let shift = SourceMap::new(None, vec![sourcemap::RawToken { dst_line: 10, dst_col: 2, src_line: 0, src_col: 0, src_id: !0, name_id: !0, is_range: false }], vec![], vec![], None);
+                    h.adjust_mappings(&shift);
+                    observe(&h, &qs, "lookup-adjust-lookup", &how, em);
+                    let h2 = h.clone();
+                    observe(&h2, &qs, "clone-after-adjust", &how, em);
                     let mut bytes = vec![];
                     if sm.to_writer(&mut bytes).is_ok() {
                         if let Ok(back) = SourceMap::from_slice(&bytes) {
@@ -98,7 +107,20 @@ pub fn gen_queries(rng: &mut Rng, toks: &[Value], n: usize) -> Vec<Value> {
     qs
 }
 
+/// a run of k tokens sharing one position (k up to 140), with tokens before and after
+fn gen_run(rng: &mut Rng) -> Value {
+    let k = 1 + rng.below(140) as usize;
+    let before = rng.below(4) as usize;
+    let after = rng.below(4) as usize;
+    let mut toks = vec![];
+    for i in 0..before { toks.push(json!([1, i, 0, i, 0, -1, 0])); }
+    for i in 0..k { toks.push(json!([3, 7, 0, 10 + i, 0, -1, 0])); }
+    for i in 0..after { toks.push(json!([3, 8 + i, 0, 500 + i, 0, -1, 0])); }
+    json!({"op": "lookup", "toks": toks, "nsrc": 1, "nnm": 0, "how": "new",
+           "qs": [[3, 7], [3, 6], [3, 8], [3, 100], [4, 0], [1, 0], [0, 0], [2, 5]]})
+}
 fn gen_with(rng: &mut Rng, size: usize, with_range: bool) -> Value {
+    if !with_range && rng.chance(1, 6) { return gen_run(rng); }
     let mut m = if rng.chance(1, 8) && !with_range {
         json!({"op": "lookup", "doc": crate::c02::gen_index_doc(rng, size, 1)})
     } else {
@@ -126,14 +148,15 @@ pub fn run_c07(case: &Value, em: &mut Emitter) {
 pub fn gen_c07(rng: &mut Rng, size: usize) -> Value {
     match rng.below(4) {
         0 => {
-            // a long line: up to 70 tokens on one line, random flag density
-            let n = 1 + rng.below(70);
+            // a long line: up to 70 tokens (sometimes up to 330) on one line, random flag density incl. a lone flag
+            let n = if rng.chance(1, 3) { 100 + rng.below(230) } else { 1 + rng.below(70) };
             let lead = rng.below(3) as i64;
-            let dens = 1 + rng.below(6);
+            let dens = if rng.chance(1, 3) { n + 1 } else { 1 + rng.below(6) };   // n+1: (almost) no flag except the forced ones below
             let mut toks = vec![];
             if lead > 0 && rng.chance(1, 2) { toks.push(json!([0, 0, 0, 0, 0, -1, rng.below(2)])); }
+            let lone = rng.below(n) as i64;
             for i in 0..n as i64 {
-                toks.push(json!([lead, i * 3, 0, i, 5, -1, if rng.below(dens) == 0 { 1 } else { 0 }]));
+                toks.push(json!([lead, i * 3, 0, i, 5, -1, if rng.below(dens) == 0 || i == lone || i == n as i64 - 1 { 1 } else { 0 }]));
             }
             if rng.chance(1, 2) { toks.push(json!([lead + 1, 4, 0, 1, 1, -1, rng.below(2)])); }
             let mut m = json!({"op": "map", "toks": toks, "nsrc": 1, "nnm": 0});
